@@ -290,5 +290,99 @@ Section WholeFile.
     - exact Hlens.
     - exact Hslot.
   Qed.
+
 End WholeFile.
 
+Section AnyEncoder.
+  Variable unb : list N -> option (list N).
+
+  (* ---- any encoder: a file that is valid by the published layout, in whatever order and with whatever
+     padding or sharing its sections are stored ---- *)
+  Definition count_of (b : bdef) : N := (bd_cx1 b - bd_cx0 b + 1) * (bd_cy1 b - bd_cy0 b + 1).
+
+  (* the tile index of block b, as stored in the file, holds `idx`, and every non-empty entry names bytes inside the file *)
+  Definition block_stored (file : list N) (b : bdef) (idx : list (N * N)) : Prop :=
+    exists cz, read_range file (bd_ioff b) (bd_ilen b) = Some cz /\ unb cz = Some (tidx_as_blob idx) /\
+      length idx = N.to_nat (count_of b) /\
+      Forall (fun p => fst p + bd_toff b <= u64_max /\ snd p <= u32_max /\ (0 < snd p -> fst p + bd_toff b + snd p <= N.of_nat (length file))) idx.
+
+  Definition file_valid (file : list N) (h : hdr) (bs : list bdef) (idx_of : bdef -> list (N * N)) : Prop :=
+    hdr_from_blob (firstn 66 file) = Ok h /\
+    (0 < h_mlen h -> h_moff h + h_mlen h <= N.of_nat (length file)) /\
+    (exists bz raw, read_range file (h_boff h) (h_blen h) = Some bz /\ unb bz = Some raw /\ bidx_from_blob raw = Ok bs) /\
+    NoDup (map bkey bs) /\
+    Forall (fun b => block_stored file b (idx_of b)) bs.
+
+  Lemma bidx_read_shape : forall n l bs, bidx_read n l = Ok bs -> Forall bdef_shape bs.
+  Proof.
+    induction n as [|k IH]; intros l bs H; [inversion H; constructor|]. cbn [bidx_read] in H.
+    destruct (bdef_from_blob (firstn 33 l)) as [b| | |] eqn:Eb; cbn [obind] in H; try discriminate.
+    destruct (bidx_read k (skipn 33 l)) as [r| | |] eqn:Er; cbn in H; try discriminate. inversion H; subst.
+    constructor; [exact (bdef_from_blob_shape _ _ Eb)|exact (IH _ _ Er)].
+  Qed.
+
+  Lemma slot_in_index b x y : bdef_shape b -> bd_gx0 b <= x -> x <= bd_gx1 b -> bd_gy0 b <= y -> y <= bd_gy1 b ->
+    (y - bd_gy0 b) * (bd_gx1 b - bd_gx0 b + 1) + (x - bd_gx0 b) < count_of b.
+  Proof.
+    intros (Hcx & Hcy & G0 & G1 & G2 & G3 & _) Hx0 Hx1 Hy0 Hy1. unfold count_of.
+    replace (bd_cx1 b - bd_cx0 b) with (bd_gx1 b - bd_gx0 b) by lia. replace (bd_cy1 b - bd_cy0 b) with (bd_gy1 b - bd_gy0 b) by lia.
+    assert (Ha : y - bd_gy0 b <= bd_gy1 b - bd_gy0 b) by lia. assert (Hc : x - bd_gx0 b <= bd_gx1 b - bd_gx0 b) by lia.
+    remember (y - bd_gy0 b) as a eqn:E1. remember (x - bd_gx0 b) as c eqn:E2. remember (bd_gx1 b - bd_gx0 b) as w eqn:E3. remember (bd_gy1 b - bd_gy0 b) as d eqn:E4. clear - Ha Hc.
+    apply N.lt_le_trans with (a * (w + 1) + (w + 1)); [lia|]. replace (a * (w + 1) + (w + 1)) with ((a + 1) * (w + 1)) by lia.
+    rewrite (N.mul_comm (w + 1)). apply N.mul_le_mono_r. lia.
+  Qed.
+
+  Theorem vt_valid_file_lookup file h bs idx_of z x y :
+    file_valid file h bs idx_of -> z <= 31 ->
+    vt_file_lookup unb file z x y =
+      Ok (match find (fun b => (bd_z b =? z) && (bd_x b =? x / 256) && (bd_y b =? y / 256)) bs with
+          | None => None
+          | Some b =>
+              if (bd_gx0 b <=? x) && (x <=? bd_gx1 b) && (bd_gy0 b <=? y) && (y <=? bd_gy1 b) then
+                match nth_error (idx_of b) (N.to_nat ((y - bd_gy0 b) * (bd_gx1 b - bd_gx0 b + 1) + (x - bd_gx0 b))) with
+                | Some (o, l) => if l =? 0 then None else Some (sub file (N.to_nat (o + bd_toff b)) (N.to_nat l))
+                | None => None        (* never: the slot number of a covered coordinate lies inside the index *)
+                end
+              else None
+          end).
+  Proof.
+    intros (Hh & Hm & (bz & raw & Hb1 & Hb2 & Hb3) & Hnd & Hblocks) Hz.
+    unfold vt_file_lookup. rewrite Hh. cbn [obind].
+    assert (Hmeta : (if 0 <? h_mlen h then match read_range file (h_moff h) (h_mlen h) with Some _ => Ok tt | None => Err end else Ok tt) = Ok tt).
+    { destruct (0 <? h_mlen h) eqn:E; [|reflexivity]. apply N.ltb_lt in E. rewrite read_range_at by exact (Hm E). reflexivity. }
+    rewrite Hmeta. cbn [obind]. rewrite Hb1, Hb2, Hb3. cbn [obind].
+    replace (31 <? z) with false by (symmetry; apply N.ltb_ge; exact Hz).
+    (* with distinct keys the HashMap's "last insert wins" is the list's only match *)
+    assert (Hfind : bidx_find bs z (x / 256) (y / 256) = find (fun b => (bd_z b =? z) && (bd_x b =? x / 256) && (bd_y b =? y / 256)) bs).
+    { unfold bidx_find. set (f := fun b : bdef => (bd_z b =? z) && (bd_x b =? x / 256) && (bd_y b =? y / 256)).
+      destruct (find f bs) as [b|] eqn:E.
+      - apply find_some in E. destruct E as [Hin Hf]. apply find_unique.
+        + intros b' Hin' Hf'. apply in_rev in Hin'. apply (nodup_map_inj bkey bs b' b Hnd Hin' Hin).
+          unfold f in Hf, Hf'. apply andb_true_iff in Hf, Hf'. destruct Hf as [Hf1 Hf3], Hf' as [Hf1' Hf3'].
+          apply andb_true_iff in Hf1, Hf1'. destruct Hf1 as [Hf1 Hf2], Hf1' as [Hf1' Hf2'].
+          apply N.eqb_eq in Hf1, Hf2, Hf3, Hf1', Hf2', Hf3'. unfold bkey. congruence.
+        + exists b. split; [apply in_rev; rewrite rev_involutive; exact Hin|exact Hf].
+      - destruct (find f (rev bs)) as [b|] eqn:E2; [|reflexivity]. apply find_some in E2. destruct E2 as [Hin Hf].
+        apply in_rev in Hin. pose proof (find_none f bs E b Hin). congruence. }
+    rewrite Hfind.
+    destruct (find _ bs) as [b|] eqn:Eb; [|reflexivity].
+    apply find_some in Eb. destruct Eb as [Hin _].
+    destruct ((bd_gx0 b <=? x) && (x <=? bd_gx1 b) && (bd_gy0 b <=? y) && (y <=? bd_gy1 b)) eqn:Ein; cbn [negb]; [|reflexivity].
+    assert (Hshape : bdef_shape b).
+    { unfold bidx_from_blob in Hb3. destruct (negb _); [discriminate|]. pose proof (bidx_read_shape _ _ _ Hb3) as Hs. rewrite Forall_forall in Hs. exact (Hs b Hin). }
+    repeat (apply andb_true_iff in Ein; destruct Ein as [Ein ?]). repeat match goal with H : (_ <=? _) = true |- _ => apply N.leb_le in H end.
+    cbv zeta. rewrite Forall_forall in Hblocks. destruct (Hblocks b Hin) as (cz & Hc1 & Hc2 & Hlen & Hents).
+    set (slot := N.to_nat ((y - bd_gy0 b) * (bd_gx1 b - bd_gx0 b + 1) + (x - bd_gx0 b))).
+    destruct (nth_error (idx_of b) slot) as [[o l]|] eqn:En.
+    2:{ exfalso. apply nth_error_None in En. rewrite Hlen in En. pose proof (slot_in_index b x y Hshape ltac:(assumption) ltac:(assumption) ltac:(assumption) ltac:(assumption)) as Hlt. unfold slot in En. lia. }
+    unfold read_tile, block_tile_index. rewrite Hc1, Hc2.
+    assert (Hb64 : Forall (fun p => fst p + bd_toff b <= u64_max) (idx_of b)) by (eapply Forall_impl; [|exact Hents]; cbn; intros p Hp; apply Hp).
+    rewrite tidx_roundtrip.
+    2:{ eapply Forall_impl; [|exact Hents]. cbn. intros p (Hp1 & Hp2 & _). split; [lia|exact Hp2]. }
+    cbn [obind]. rewrite (add_offset_ok (bd_toff b) _ Hb64). cbn [obind]. rewrite map_length. fold (count_of b). rewrite Hlen, Nat.eqb_refl. cbn [obind].
+    rewrite nth_error_map, En. cbn [option_map fst snd].
+    destruct (l =? 0) eqn:El; [reflexivity|]. apply N.eqb_neq in El.
+    apply nth_error_In in En. rewrite Forall_forall in Hents. destruct (Hents (o, l) En) as (_ & _ & Hin_file). cbn [fst snd] in Hin_file.
+    rewrite read_range_at by (apply Hin_file; lia). reflexivity.
+  Qed.
+End AnyEncoder.
